@@ -229,19 +229,50 @@ func rrun(args []string) error {
 			o.wls.Write(b)
 			o.wls.WriteByte('\n')
 		}
-		tr := wl.NewTrace()
-		var buf bytes.Buffer
-		run.RunWriter(tr, w, nil, &buf)
-		b := append([]byte{}, buf.Bytes()...)
-		f := run.DecodeForTrace(b)
-		tr.Add(wl.FileEv(f))
-		tr.Add(lfileEv(f))
-		if err := readCases(tr, *mode, *only, w, b, f, *seed); err != nil {
-			return err
+		variants := []string{""}
+		if (*mode == "flip" || *mode == "overwrite") && *in == "" {
+			variants = append(variants, "mixedcrc")
 		}
-		tr.Add(wl.Ev{"ev": "End"})
-		if err := o.emit(tr); err != nil {
-			return err
+		if strings.HasSuffix(w.ID, "-mixedcrc") { // replay of a variant
+			variants = []string{"mixedcrc"}
+			w.ID = strings.TrimSuffix(w.ID, "-mixedcrc")
+		}
+		for _, variant := range variants {
+			w2 := w
+			if variant != "" {
+				w2.ID = w.ID + "-" + variant
+			}
+			tr := wl.NewTrace()
+			var buf bytes.Buffer
+			run.RunWriter(tr, w2, nil, &buf)
+			b := append([]byte{}, buf.Bytes()...)
+			f := run.DecodeForTrace(b)
+			if variant == "mixedcrc" {
+				// a legal file in which only some chunks carry a checksum: the CRC field of every second chunk, starting with
+				// the first, is set to zero ("not available"); damage is then applied to the chunks that still carry one
+				nc := 0
+				for _, r := range f.Recs {
+					if r.Op == refmcap.OpChunk && r.OK {
+						if nc%2 == 0 {
+							copy(b[r.Pos+9+24:r.Pos+9+28], []byte{0, 0, 0, 0})
+						}
+						nc++
+					}
+				}
+				if nc < 2 {
+					continue
+				}
+				f = run.DecodeForTrace(b)
+			}
+			tr.Add(wl.FileEv(f))
+			tr.Add(lfileEv(f))
+			if err := readCases(tr, *mode, *only, w2, b, f, *seed); err != nil {
+				return err
+			}
+			tr.Add(wl.Ev{"ev": "End"})
+			if err := o.emit(tr); err != nil {
+				return err
+			}
 		}
 	}
 	return nil
@@ -391,6 +422,8 @@ func readCases(tr *wl.Trace, mode, only string, w wl.Workload, b []byte, f *refm
 			var from, to uint64
 			target := ""
 			switch {
+			case rec.Op == refmcap.OpChunk && rec.OK && rec.CRC == 0:
+				continue // no checksum to validate against: damage to this chunk cannot be noticed, and C07 does not ask for it
 			case rec.Op == refmcap.OpChunk && rec.OK:
 				from, to, target = rec.RecordsPos, rec.RecordsPos+rec.CSize, "chunk"
 			case rec.Op == refmcap.OpAttachment && rec.OK:
@@ -431,7 +464,7 @@ func readCases(tr *wl.Trace, mode, only string, w wl.Workload, b []byte, f *refm
 		ri := 0
 		for _, rec := range f.Recs {
 			ri++
-			if rec.Op != refmcap.OpChunk || !rec.OK || rec.CSize < 4 {
+			if rec.Op != refmcap.OpChunk || !rec.OK || rec.CSize < 4 || rec.CRC == 0 {
 				continue
 			}
 			for k := 0; k < 200; k++ {
